@@ -3,7 +3,7 @@
     what /repo produced; and the specification predicates of C07 evaluated on
     the observed outputs. *)
 From Perf Require Import Base.Bytes Base.Sx Base.Rune Model.Name Model.Extract
-  Model.Unquote Model.Tok Model.FilterAst Model.FilterParse Model.ProjParse.
+  Model.Unquote Model.Tok Model.FilterAst Model.FilterParse Model.ProjParse Model.ExprSpec.
 
 (** outcomes of the real code: 0 ok (with payload), 1 syntax error at offset,
     2 panic, 3 other error, 4 timeout *)
@@ -95,8 +95,10 @@ Inductive case :=
          (nf : obs unit) (mall : Z) (np : obs unit) (got : bytes)
 (* quoted words inside a value list and a fixed-order list *)
 | CQList (k v v2 ck cv cv2 gk gv gv2 : bytes) (flc flg : obs filter) (pfc pfg : obs (list pfield))
-(* bare words: w:v as filter, w as projection, k@(w v) *)
-| CBare (w v : bytes) (t : oracle) (fo : obs filter) (po xo : obs (list pfield))
+(* bare words: w:v as filter, w as projection, k@(w v); [d] = the two
+   character classes of the production bareWord as the package documentation
+   of the tree under test gives them *)
+| CBare (w v : bytes) (t : oracle) (fo : obs filter) (po xo : obs (list pfield)) (d : docsyn)
 (* structured expressions: the generator made the tree / field list [want]
    first and printed it in the documented syntax as [q] *)
 | CSFilter (q : bytes) (t : oracle) (want : filter) (fp : obs filter) (nf : obs unit)
@@ -123,10 +125,11 @@ Definition decode (s : sx) : option case :=
   | SL [SZ 3; SB k; SB v; SB v2; SB ck; SB cv; SB cv2; SB gk; SB gv; SB gv2; flc; flg; pfc; pfg] =>
       do flc <- dec_fobs flc; do flg <- dec_fobs flg; do pfc <- dec_pobs pfc; do pfg <- dec_pobs pfg;
       Some (CQList k v v2 ck cv cv2 gk gv gv2 flc flg pfc pfg)
-  | SL [SZ 4; SB w; SB v; t; fo; po; xo] =>
+  | SL [SZ 4; SB w; SB v; t; fo; po; xo; SL [f; fsp; r; rsp]] =>
       do t <- as_list (as_pair as_b as_bool) t;
       do fo <- dec_fobs fo; do po <- dec_pobs po; do xo <- dec_pobs xo;
-      Some (CBare w v t fo po xo)
+      do f <- as_list as_N f; do fsp <- as_bool fsp; do r <- as_list as_N r; do rsp <- as_bool rsp;
+      Some (CBare w v t fo po xo (mkDoc f fsp r rsp))
   | SL [SZ 5; SB q; t; want; fp; nf] =>
       do t <- as_list (as_pair as_b as_bool) t;
       do want <- dec_filter 200 want;
@@ -162,27 +165,10 @@ Definition colon (a b : bytes) : bytes := a ++ c_colon :: b.
 Definition vlist_text (k a b : bytes) : bytes := k ++ bs ":(" ++ a ++ bs " OR " ++ b ++ bs ")".
 Definition fixed_text (k a b : bytes) : bytes := k ++ bs "@(" ++ a ++ bs " " ++ b ++ bs ")".
 
-(** ** bare words: the documented bareWord (first character none of - * dquote
-    ( ) : @ , and no later character a blank or one of ( ) : @ ,) read over
-    runes (a word is cut at any Unicode space), minus the keywords AND / OR; a
-    value must not start with a slash (that starts a regexp) *)
-Fixpoint plain_runes (w : bytes) (skip : nat) : bool :=
-  match w with
-  | [] => true
-  | _ :: w' =>
-      match skip with
-      | S k => plain_runes w' k
-      | O => let '(r, size) := decode_rune w in
-             negb (go_is_space r || is_op_r r || (r =? 32)%N) && plain_runes w' (size - 1)
-      end
-  end.
-Definition bare_safe (value : bool) (w : bytes) : bool :=
-  match w with
-  | [] => false
-  | c :: _ =>
-      negb (is_start_op c) && negb (Byte.eqb c c_dquote) && negb (value && Byte.eqb c c_fslash)
-      && negb (beq w word_AND) && negb (beq w word_OR) && plain_runes w 0
-  end.
+(** ** bare words: judged by [ExprSpec.doc_bare] on the character classes the
+    documentation names (the case carries them); the documentation's "white
+    space" is unicode.IsSpace, which holds the blank *)
+Definition doc_space (r : N) : bool := go_is_space r || (r =? 32)%N.
 
 Definition corr_ok (c : case) : bool :=
   match c with
@@ -203,7 +189,7 @@ Definition corr_ok (c : case) : bool :=
       && obs_eq filter_eqb (pf [] (vlist_text gk gv gv2)) flg
       && obs_eq fields_eqb (pp_ [] (fixed_text ck cv cv2)) pfc
       && obs_eq fields_eqb (pp_ [] (fixed_text gk gv gv2)) pfg
-  | CBare w v t fo po xo =>
+  | CBare w v t fo po xo _ =>
       obs_eq filter_eqb (pf t (colon w v)) fo && obs_eq fields_eqb (pp_ t w) po
       && obs_eq fields_eqb (pp_ t (fixed_text (bs "k") w v)) xo
   | CSFilter q t want fp nf =>
@@ -218,34 +204,49 @@ Definition corr_ok (c : case) : bool :=
 Definition to_cfg (l : list (bytes * bytes * bool)) : list cfg :=
   map (fun '(k, v, f) => mkCfg k v f) l.
 
-Definition special_key (k : bytes) : bool :=
-  beq k key_unit || beq k key_config || match k with [] => true | _ => false end.
+(** ** keys.  "Any key ... string whatsoever can be used in a filter or
+    projection by writing it as a double-quoted Go string literal"; the
+    statement names the two keys that are refused all the same: .config in a
+    filter and .unit in a projection.  The EMPTY key is a string like any
+    other, so the property demands that it is accepted.  golang/perf refuses it
+    (benchproc/extract.go newExtractor: "key must not be empty", pinned by
+    extract_test.go): known finding C07_empty_key_refused.  With [relax] (the
+    judge of that finding, [known_ok]) exactly this outcome is allowed as
+    well: a syntax error at the term / field that holds the empty key. *)
 
-(** offsets of the terms of a filter tree that the semantic layer must refuse:
-    the key .config and the empty key *)
-Fixpoint bad_terms (x : filter) : list nat :=
+(** offsets of the terms of a filter tree whose key satisfies [p] *)
+Fixpoint key_terms (p : bytes -> bool) (x : filter) : list nat :=
   match x with
-  | FMatch k _ off => if beq k key_config || is_nil k then [off] else []
-  | FAnd l | FOr l => flat_map bad_terms l
-  | FNot y => bad_terms y
+  | FMatch k _ off => if p k then [off] else []
+  | FAnd l | FOr l => flat_map (key_terms p) l
+  | FNot y => key_terms p y
   end.
+Definition is_config (k : bytes) : bool := beq k key_config.
 
 (** offsets at which a projection field list must be refused: the key of a
-    .unit or empty-key field, the order of an unknown order, of a fixed order
-    without values and of a fixed order on .config *)
+    .unit field, the order of an unknown order, of a fixed order without
+    values and of a fixed order on .config *)
 Definition bad_fields (l : list pfield) : list nat :=
   flat_map (fun p =>
     (if negb (known_order (pf_order p))
         || (beq (pf_order p) ord_fixed && (is_nil (pf_fixed p) || beq (pf_key p) key_config))
      then [pf_ooff p] else [])
-    ++ (if beq (pf_key p) key_unit || is_nil (pf_key p) then [pf_koff p] else [])) l.
+    ++ (if beq (pf_key p) key_unit then [pf_koff p] else [])) l.
+(** offsets of the fields with the empty key *)
+Definition empty_fields (l : list pfield) : list nat :=
+  flat_map (fun p => if is_nil (pf_key p) then [pf_koff p] else []) l.
 
-(** accepted when nothing is wrong; else a syntax error positioned at one of
-    the offending terms (and never a panic, a hang or another kind of error) *)
-Definition rejected_at (bad : list nat) (o : obs unit) : bool :=
-  match bad with
-  | [] => is_ok o
-  | _ => match o with OErr z => existsb (fun off => Z.eqb (Z.of_nat off) z) bad | _ => false end
+Definition err_in {A} (offs : list nat) (o : obs A) : bool :=
+  match o with OErr z => existsb (fun off => Z.eqb (Z.of_nat off) z) offs | _ => false end.
+
+(** [must]: the offending terms the property lists; accepted when there is
+    none, else a syntax error positioned at one of them (and never a panic, a
+    hang or another kind of error).  [may]: the terms with the empty key; they
+    count only under [relax]. *)
+Definition refused_gen (relax : bool) (must may : list nat) (o : obs unit) : bool :=
+  match must with
+  | [] => is_ok o || (relax && err_in may o)
+  | _ => err_in (must ++ (if relax then may else [])) o
   end.
 
 (** the regexps of a filter tree, in the order of the text *)
@@ -260,40 +261,27 @@ Fixpoint filter_res (x : filter) : list bytes :=
 Definition err_at {A} (off : nat) (o : obs A) : bool :=
   match o with OErr z => Z.eqb (Z.of_nat off) z | _ => false end.
 
-(** where the specification puts the end of a regexp that starts right after
-    [pre]: [re_scan] (the first slash outside [...] and (...) that no
-    backslash hides; \Q and \E are backslash pairs like any other, so a slash
-    inside a \Q..\E section DOES close the regexp).  Outcome demanded of the
-    filter parser on pre ++ "/" ++ s:
-    - no such slash: syntax error at the opening slash;
-    - the text up to it does not compile: syntax error at the opening slash;
-    - it is followed by something other than end / space / operator start:
-      syntax error right after the closing slash;
-    - else the regexp token is exactly that text: an accepted filter's first
-      regexp is that text, and any error lies after the closing slash.
-    Never a panic, a hang ((4), the watchdog's verdict) or another error. *)
-Definition re_delim_ok (pre s : bytes) (t : oracle) (fp : obs filter) : bool :=
-  let p := length pre in
-  match re_scan s 0 0 false with
-  | None => err_at p fp
-  | Some i =>
-      let expr := firstn i s in
-      if negb (re_lookup t expr) then err_at p fp
-      else
-        let follow_ok := match skipn (S i) s with
-                         | [] => true
-                         | d :: _ => sp (bN d) || is_start_op d
-                         end in
-        if negb follow_ok then err_at (p + i + 2) fp
-        else match fp with
-             | OOk x => match filter_res x with e :: _ => beq e expr | [] => false end
-             | OErr z => (Z.of_nat (p + i + 2) <=? z)%Z
-             | OBad _ => false
-             end
-  end.
+(** ** regexps.  What the property states about a regexp that starts right
+    after [pre] (text pre ++ "/" ++ s), and nothing about HOW its end is found
+    (the scan of the code, [re_scan], is compared exactly in [corr_ok]):
+    - an unterminated regexp is rejected, by the syntax layer and therefore by
+      NewFilter ([ExprSpec.re_unterminated]: no slash follows, or only escaped
+      ones and no literal section);
+    - an accepted text denotes what was written: its first regexp value is the
+      text between the opening slash and a later slash of [s];
+    - never a panic, a hang ((4), the watchdog's verdict) or another error
+      ([clean], at the use site). *)
+Definition re_spec_ok (s : bytes) (fp : obs filter) (nf : obs unit) : bool :=
+  (if re_unterminated s then negb (is_ok fp) && negb (is_ok nf) else true)
+  && match fp with
+     | OOk x => match filter_res x with e :: _ => re_delimited s e | [] => false end
+     | _ => true
+     end.
 
-(** specification predicates on the implementation's observed behaviour *)
-Definition prop_ok (c : case) : bool :=
+(** specification predicates on the implementation's observed behaviour;
+    [relax] = false: the property ([prop_ok]); true: the property minus the
+    recorded deviation of the known finding ([known_ok]) *)
+Definition prop_gen (relax : bool) (c : case) : bool :=
   match c with
   | CSpace _ => true
   | CExpr q t fp pp nf np =>
@@ -302,21 +290,23 @@ Definition prop_ok (c : case) : bool :=
       clean n fp && clean n pp && clean n nf && clean n np
       (* the semantic layer only ever rejects more *)
       && (is_ok fp || negb (is_ok nf)) && (is_ok pp || negb (is_ok np))
-      (* .config / empty key in a filter, .unit / empty key / unknown order /
-         fixed order on .config / fixed order without values (k@fixed) in a
-         projection are rejected, and nothing else is *)
+      (* .config in a filter, .unit / unknown order / fixed order on .config /
+         fixed order without values (k@fixed) in a projection are rejected,
+         and nothing else is -- not the empty key either (known finding) *)
       && match fp with
-         | OOk x => if existsb (fun k => beq k key_config || match k with [] => true | _ => false end) (filter_keys x)
-                    then negb (is_ok nf) else is_ok nf
+         | OOk x => if existsb is_config (filter_keys x) then negb (is_ok nf)
+                    else if existsb is_nil (filter_keys x) then is_ok nf || relax
+                    else is_ok nf
          | _ => true
          end
       && match pp with
          | OOk l => if existsb (fun p => negb (known_order (pf_order p))
                                          || beq (pf_key p) key_unit
-                                         || match pf_key p with [] => true | _ => false end
                                          || (beq (pf_key p) key_config && beq (pf_order p) ord_fixed)
                                          || (beq (pf_order p) ord_fixed && is_nil (pf_fixed p))) l
-                    then negb (is_ok np) else is_ok np
+                    then negb (is_ok np)
+                    else if existsb (fun p => is_nil (pf_key p)) l then is_ok np || relax
+                    else is_ok np
          | _ => true
          end
       (* syntax layer (ParseProjection): a fixed order with no values can only
@@ -337,9 +327,14 @@ Definition prop_ok (c : case) : bool :=
       let is_p (o : obs (list pfield)) := match o with OOk l => fields_eqb l want_p | _ => false end in
       (* any string is expressible as a double-quoted literal, in both quotings *)
       is_f fc && is_f fg && is_p pc && is_p pg
+      (* and can be used: accepted, except .config in a filter and .unit in a
+         projection, which are refused; the empty key included (known finding:
+         refused at offset 0) *)
+      && (if is_nil k then is_ok nf || (relax && err_at 0 nf)
+          else Bool.eqb (is_ok nf) (negb (beq k key_config)))
+      && (if is_nil k then is_ok np || (relax && err_at 0 np)
+          else Bool.eqb (is_ok np) (negb (beq k key_unit)))
       (* and denotes exactly that string when used *)
-      && Bool.eqb (is_ok nf) (negb (beq k key_config || match k with [] => true | _ => false end))
-      && Bool.eqb (is_ok np) (negb (beq k key_unit || match k with [] => true | _ => false end))
       && (if is_ok nf && negb (beq k key_unit)
           then Z.eqb mall (if beq (extract k name (to_cfg cfgs)) v then 1 else 0) else true)
       && (if is_ok np && negb (beq k key_config)
@@ -354,16 +349,18 @@ Definition prop_ok (c : case) : bool :=
         | _ => false
         end in
       is_f flc && is_f flg && is_p ck pfc && is_p gk pfg
-  | CBare w v t fo po xo =>
+  | CBare w v t fo po xo d =>
       let n := length w + length v + 8 in
+      let bare := doc_bare doc_space d in
       clean n fo && clean n po && clean n xo
-      (* an unquoted word without special characters denotes exactly its bytes *)
-      && (if bare_safe false w && bare_safe true v
+      (* an unquoted word without any of the documented special characters
+         denotes exactly its bytes *)
+      && (if bare false w && bare true v
           then match fo with OOk x => filter_eqb x (FMatch w (MLit v) 0) | _ => false end else true)
-      && (if bare_safe false w
+      && (if bare false w
           then match po with OOk l => fields_eqb l [mkField w ord_first [] 0 (length w)] | _ => false end
           else true)
-      && (if bare_safe false w && bare_safe false v
+      && (if bare false w && bare false v
           then match xo with OOk l => fields_eqb l [mkField (bs "k") ord_fixed [w; v] 0 2] | _ => false end
           else true)
   | CSFilter q t want fp nf =>
@@ -371,27 +368,32 @@ Definition prop_ok (c : case) : bool :=
          structure it was printed from (quoted keys and values anywhere in an
          AND sequence, in parentheses, under '-', in value lists) *)
       match fp with OOk x => filter_eqb x want | _ => false end
-      (* .config / the empty key anywhere in it: refused cleanly, at that term *)
-      && rejected_at (bad_terms want) nf
+      (* .config anywhere in it: refused cleanly, at that term; else accepted *)
+      && refused_gen relax (key_terms is_config want) (key_terms is_nil want) nf
   | CSProj q want pp np =>
       match pp with OOk l => fields_eqb l want | _ => false end
-      && rejected_at (bad_fields want) np
+      && refused_gen relax (bad_fields want) (empty_fields want) np
   | CReDelim pre s t fp nf =>
       let n := length pre + S (length s) in
       (* never a hang or a panic; offsets inside the text *)
       clean n fp && clean n nf
-      (* the regexp ends where the specification says *)
-      && re_delim_ok pre s t fp
-      (* the semantic layer only rejects more, and only .config / empty keys *)
+      (* unterminated: rejected; accepted: the value is the text between its delimiters *)
+      && re_spec_ok s fp nf
+      (* the semantic layer only rejects more, and only .config keys *)
       && (is_ok fp || negb (is_ok nf))
       && match fp with
-         | OOk x => rejected_at (bad_terms x) nf
+         | OOk x => refused_gen relax (key_terms is_config x) (key_terms is_nil x) nf
          | _ => true
          end
   end.
 
+Definition prop_ok (c : case) : bool := prop_gen false c.
+(** everything the property demands except the recorded deviation of
+    C07_empty_key_refused *)
+Definition known_ok (c : case) : bool := prop_gen true c.
+
 Definition run_case (s : sx) : N :=
   match decode s with
-  | Some c => code_of (corr_ok c) (prop_ok c)
+  | Some c => code_of3 (corr_ok c) (prop_ok c) (known_ok c)
   | None => code_undecodable
   end.
